@@ -1,6 +1,48 @@
 import Driver.JsonIO
+import RulioModel.ConcC12
 open Lean
 
-/-- model-side handler for cases whose "kind" starts with "c12." (stub until the property's slice lands) -/
-def handleC12 (kind : String) (c : Json) : Json :=
-  Json.mkObj [("err", Json.str ("unknown kind " ++ kind))]
+/-! model-side handler for kinds `c12.*`:
+`c12.table` — evaluates the discipline checker over the regenerated table and reports every breach, which of
+them are not in the list of known exceptions (new), which known exceptions no longer occur (stale). -/
+
+namespace C12Drv
+open Conc Conc.C12
+
+def accStr : Acc → String
+  | .lock w => s!"lock {if w then "w" else "r"}"
+  | .unlock w => s!"unlock {if w then "w" else "r"}"
+  | .rd f => s!"rd {reprStr f}"
+  | .wr f => s!"wr {reprStr f}"
+  | .call m => s!"call {m}"
+  | .store o => s!"store {o}"
+  | .hook h => s!"hook {h}"
+  | .lock2 n => s!"lock2 {n}"
+  | .unlock2 n => s!"unlock2 {n}"
+
+def modeStr : LMode → String | .none => "none" | .r => "r" | .w => "w"
+
+def violJ (v : Viol) : Json :=
+  Json.mkObj [("impl", Json.str v.impl), ("method", Json.str v.method), ("acc", Json.str (accStr v.acc)),
+              ("mode", Json.str (modeStr v.mode)), ("viaExpire", Json.bool v.viaExpire)]
+
+def tableJ : Json :=
+  let vs := violations Gen.C12.table
+  let new := vs.filter (fun v => !knownExceptions.contains v)
+  let stale := knownExceptions.filter (fun v => !vs.contains v)
+  Json.mkObj [
+    ("structureOK", Json.bool (structureOK Gen.C12.table)),
+    ("disciplineOK", Json.bool (disciplineOK Gen.C12.table knownExceptions)),
+    ("fragOK", Json.mkObj [("indexed", Json.bool (fragOK "indexed")), ("linear", Json.bool (fragOK "linear"))]),
+    ("rows", Json.num Gen.C12.table.length),
+    ("violations", Json.arr (vs.map violJ).toArray),
+    ("new", Json.arr (new.map violJ).toArray),
+    ("stale", Json.arr (stale.map violJ).toArray)]
+
+end C12Drv
+
+/-- model-side handler for cases whose "kind" starts with "c12." -/
+def handleC12 (kind : String) (_c : Json) : Json :=
+  match kind with
+  | "c12.table" => C12Drv.tableJ
+  | _ => Json.mkObj [("err", Json.str ("unknown kind " ++ kind))]
